@@ -14,6 +14,7 @@ func (n *Node) Clone() *Node {
 	c.Params = append([]Param{}, n.Params...)
 	c.DispParams = append([]Param{}, n.DispParams...)
 	c.Extra = append([]string{}, n.Extra...)
+	c.RawLines = append([]string{}, n.RawLines...)
 	c.Body = append([]byte{}, n.Body...)
 	if n.Env != nil {
 		e := *n.Env
@@ -38,9 +39,9 @@ func candidates(n *Node) []*Node {
 		out = append(out, c)
 	}
 	// drop optional header material
-	if n.ID != "" || n.Desc != "" || n.Enc != "" || n.MD5 != "" || n.Disp != "" || n.Lang != "" || n.Loc != "" || len(n.Extra) > 0 || n.Prelude != "" {
+	if n.ID != "" || n.Desc != "" || n.Enc != "" || n.MD5 != "" || n.Disp != "" || n.Lang != "" || n.Loc != "" || len(n.Extra) > 0 || len(n.RawLines) > 0 || n.Prelude != "" {
 		with(func(c *Node) {
-			c.ID, c.Desc, c.Enc, c.MD5, c.Disp, c.Lang, c.Loc, c.Extra, c.DispParams, c.Prelude = "", "", "", "", "", "", "", nil, nil, ""
+			c.ID, c.Desc, c.Enc, c.MD5, c.Disp, c.Lang, c.Loc, c.Extra, c.DispParams, c.Prelude, c.RawLines = "", "", "", "", "", "", "", nil, nil, "", nil
 		})
 	}
 	if len(n.Preamble) > 0 || len(n.Epilogue) > 0 {
